@@ -13,7 +13,7 @@ EXTRACT = ("theories/Extract/XC09.v", "c09",
 PYX = {}
 CASE_TIMEOUT = 60
 TOL = 1e-9
-RULE = ("random track histories of 2-8 frames (quick: ~150, thorough: ~1500) on the velocity, reverse-velocity "
+RULE = ("random track histories of 2-8 frames (quick: 120, thorough: 1000) on the velocity, reverse-velocity "
         "and static models, 0-7 features per frame (thorough: 0-10); every frame draws a keep/permute/drop/add "
         "pattern (classes: random, empty frame, all-new, all-dropped+new, identity, reversal, rotation, single "
         "survivor); coordinates, q and r are dyadic (multiples of 1/4 or 1/64; q = B B^T/d + I with small integer B, "
@@ -272,7 +272,7 @@ def _corpus():
 def generate(ctx):
     rng = ctx.rng
     cases = _corpus() + _perm_cases() + _alg_cases(rng, ctx.n(25, 150))
-    nh = ctx.n(150, 1500)
+    nh = ctx.n(120, 1000)
     maxf_hi = ctx.n(7, 10)
     made = 0
     while made < nh:
